@@ -4,10 +4,10 @@
    - a valid oracle always exists (the price-descending insertion sort of the auction's bids);
    - a failure of any auction of the walk is the result of the block, and the block's effects are rolled back;
    - the executable statement c07_ok holds of every model transition. *)
-From Coq Require Import ZArith NArith List Bool Arith Lia Permutation.
+From Coq Require Import ZArith NArith List Bool Arith Lia Permutation Sorted.
 From FR Require Import Dec Types Bank Match Step Genesis Model Spec Checkers.
 From FR.Proofs Require Import InvDefs FrameFacts TxFacts BlockFacts InvStaticBase InvStaticBlock.
-From FR.Proofs Require PrecondBase HookVeto.
+From FR.Proofs Require PrecondBase HookVeto GenesisRT GenesisSort.
 From FR.Proofs Require Import EscrowBase EscrowTx EscrowBlock InvAll FixedFacts.
 Import ListNotations.
 Open Scope Z_scope.
@@ -212,15 +212,55 @@ Proof.
   intros y Hy. apply Hl. now right.
 Qed.
 
-Theorem valid_order_exists bs :
-  NoDup (map b_id bs) -> valid_order bs (map b_id (sort_desc bs)) = Some (sort_desc bs).
+(* sort_desc keeps equal-priced bids in the order of the input: with ids ascending in the input, ties come by id *)
+Lemma ties_by_id_cons b l :
+  ties_by_id (b :: l) = match l with [] => true | b' :: _ => (negb (b_price b' =? b_price b) || N.ltb (b_id b) (b_id b')) && ties_by_id l end.
+Proof. destruct l; reflexivity. Qed.
+
+Lemma insert_desc_ties b l :
+  ties_by_id l = true -> (forall x, In x l -> (b_id b < b_id x)%N) -> ties_by_id (insert_desc b l) = true.
 Proof.
-  intros ND. unfold valid_order. pose proof (sort_desc_perm bs) as Hp.
+  induction l as [|x r IH]; intros H Hid; [reflexivity|]. cbn [insert_desc].
+  destruct (b_price x <=? b_price b) eqn:E.
+  - rewrite ties_by_id_cons. apply andb_true_iff. split; [|exact H].
+    apply orb_true_iff. right. apply N.ltb_lt. apply Hid. now left.
+  - rewrite ties_by_id_cons in H.
+    assert (Hr : ties_by_id r = true) by (destruct r; [reflexivity|apply andb_true_iff in H; apply H]).
+    assert (IH' := IH Hr (fun y Hy => Hid y (or_intror Hy))).
+    rewrite ties_by_id_cons. destruct r as [|y r'].
+    + cbn [insert_desc]. apply andb_true_iff. split; [|reflexivity].
+      apply orb_true_iff. left. apply negb_true_iff, Z.eqb_neq. apply Z.leb_gt in E. lia.
+    + cbn [insert_desc] in *. apply andb_true_iff in H. destruct H as [Hxy _].
+      destruct (b_price y <=? b_price b) eqn:E2.
+      * apply andb_true_iff. split; [|exact IH'].
+        apply orb_true_iff. left. apply negb_true_iff, Z.eqb_neq. apply Z.leb_gt in E. lia.
+      * apply andb_true_iff. split; [exact Hxy|exact IH'].
+Qed.
+
+Lemma sort_desc_ties l : StronglySorted N.lt (map b_id l) -> ties_by_id (sort_desc l) = true.
+Proof.
+  induction l as [|x r IH]; intros H; [reflexivity|]. cbn [map] in H. inversion H as [|? ? Hs Hf]; subst.
+  cbn [sort_desc fold_right]. fold (sort_desc r). apply insert_desc_ties; [apply IH, Hs|].
+  intros y Hy. apply (Permutation_in _ (sort_desc_perm r)) in Hy.
+  rewrite Forall_forall in Hf. apply Hf, in_map, Hy.
+Qed.
+
+Lemma ssorted_lt_nodup l : StronglySorted N.lt l -> NoDup l.
+Proof.
+  induction 1 as [|x l _ IH Hf]; constructor; [|exact IH].
+  intros Hin. rewrite Forall_forall in Hf. specialize (Hf x Hin). lia.
+Qed.
+
+Theorem valid_order_exists bs :
+  StronglySorted N.lt (map b_id bs) -> valid_order bs (map b_id (sort_desc bs)) = Some (sort_desc bs).
+Proof.
+  intros SS. pose proof (ssorted_lt_nodup _ SS) as ND.
+  unfold valid_order. pose proof (sort_desc_perm bs) as Hp.
   rewrite map_length, (Permutation_length Hp), Nat.eqb_refl. cbn [andb].
   assert (Hnd : nodupN (map b_id (sort_desc bs)) = true).
   { apply nodupN_iff. eapply Permutation_NoDup; [|exact ND]. apply Permutation_map. symmetry. exact Hp. }
   rewrite Hnd. rewrite (pick_bids_self bs ND).
-  - rewrite sort_desc_sorted. reflexivity.
+  - rewrite sort_desc_sorted, (sort_desc_ties bs SS). reflexivity.
   - intros x Hx. eapply Permutation_in; [exact Hp|exact Hx].
 Qed.
 
@@ -243,7 +283,7 @@ Proof.
   intros I a Ha _ _ _. exists (map b_id (sort_desc (bids_of s (a_id a)))), (sort_desc (bids_of s (a_id a))). split.
   - unfold natural_orc.
     apply (find_natural (fun a => map b_id (sort_desc (bids_of s (a_id a)))) (st_auctions s) a); [apply (Inv_ids_ok s I)|exact Ha].
-  - apply valid_order_exists. apply bids_wf_nodup. apply (inv_bids _ I).
+  - apply valid_order_exists. destruct (inv_bids _ I) as [_ Hids]. rewrite Hids, GenesisRT.succ_ids_upto. apply GenesisSort.seqN_sorted.
 Qed.
 
 (* so: in every reachable state, at every block time, there is a block that succeeds when no listener vetoes *)
